@@ -13,7 +13,7 @@ Contents are identities, not bytes: which complete shard / sidecar a file holds,
 is still being written.
 
 `finish` transcribes the control flow of `Builder.Finish` after `b.building.Wait()` as it is written
-(with the two `fix:` commits of this branch applied, see the comments marked FIX): the renames of
+(with the `fix:` commits of this branch applied, see the comments marked FIX): the renames of
 `artifactPaths` in the order `ro` (Go map iteration order: any permutation), then the removals of `toDelete`
 in the order `dord` (any permutation), every rename/remove may fail (`fails tick`).
 -/
@@ -120,15 +120,12 @@ structure Acc where
   log : List (Op × Bool)     -- operations attempted, with their success
   deriving Repr
 
-/-- the rename loop of `Finish`.
-    FIX (fix: keep the old file when the rename of its replacement fails): `delete(toDelete, final)` happens
-    whether or not the rename succeeded; the unfixed code only did it on success and so went on to remove the
-    old shard whose replacement had just failed. -/
+/-- the rename loop of `Finish`: `delete(toDelete, final)` after a successful rename; a failure sets `buildError` -/
 def renameLoop (fails : Nat → Bool) : List (Path × Path) → List Path → Acc → List Path × Acc
   | [], td, a => (td, a)
   | (t, f) :: rest, td, a =>
     let ok := !fails a.tick
-    renameLoop fails rest (td.erase f) ⟨a.tick + 1, a.err || !ok, a.log ++ [(Op.rename t f, ok)]⟩
+    renameLoop fails rest (if ok then td.erase f else td) ⟨a.tick + 1, a.err || !ok, a.log ++ [(Op.rename t f, ok)]⟩
 
 def isCompoundPath : Path → Bool
   | .cshard => true
@@ -147,9 +144,10 @@ def deleteLoop (fails : Nat → Bool) (s : Scn) : List Path → Acc → Acc
       else
         let ok := !fails a.tick
         let t := Path.tmp s.tombTmp
+        -- after a failed rename `setTombstone` removes its temp file and ignores the outcome of that removal
         let log := a.log ++ [(Op.create t, true), (Op.write t .compMetaTomb, true), (Op.rename t .cmeta, ok)] ++
-          (if ok then [] else [(Op.remove t, true)])
-        deleteLoop fails s rest ⟨a.tick + 1, a.err || !ok, log⟩
+          (if ok then [] else [(Op.remove t, !fails (a.tick + 1))])
+        deleteLoop fails s rest ⟨a.tick + (if ok then 1 else 2), a.err || !ok, log⟩
     else
       let ok := !fails a.tick
       deleteLoop fails s rest ⟨a.tick + 1, a.err || !ok, a.log ++ [(Op.remove p, ok)]⟩
@@ -159,13 +157,18 @@ def toDeleteAfter (s : Scn) (ro : List (Path × Path)) : List Path :=
   (renameLoop (fun _ => false) ro (toDelete0 s) ⟨0, false, []⟩).1
 
 /-- `Builder.Finish` from `artifactPaths` on: `(log, buildError != nil)`.
-    `ro` is the order in which the map `artifactPaths` is iterated, `dord` the order of `toDelete`. -/
+    `ro` is the order in which the map `artifactPaths` is iterated, `dord` the order of `toDelete`.
+    FIX (fix: Builder.Finish keeps the old shards when a rename failed): after a failed rename `Finish` returns the
+    error before it removes or tombstones anything; the unfixed code went on through `toDelete`, in which the old file
+    whose replacement had just failed was still listed. -/
 def finish (s : Scn) (ro : List (Path × Path)) (dord : List Path) (fails : Nat → Bool) : List (Op × Bool) × Bool :=
   if ro.isEmpty then ([], false)
   else
     let r := renameLoop fails ro (toDelete0 s) ⟨0, false, []⟩
-    let a := deleteLoop fails s dord r.2
-    (a.log, a.err)
+    if r.2.err then (r.2.log, true)
+    else
+      let a := deleteLoop fails s dord r.2
+      (a.log, a.err)
 
 def successOps (log : List (Op × Bool)) : List Op :=
   log.filterMap (fun e => if e.2 then some e.1 else none)
